@@ -16,6 +16,15 @@ Theorem route_unique_covering : forall (hash : str -> N) c p g s,
 Proof. exact route_unique_covering_proof. Qed.
 Print Assumptions route_unique_covering.
 
+(* The batch fast path (the group of the previous row is reused when its span contains the timestamp): the row is still
+   stored in one shard of a group whose half-open span contains the timestamp; the group is the cached one or the
+   catalogue's. *)
+Theorem route_cached_covering : forall (hash : str -> N) cache c p g s,
+  route_cached hash cache c p = Some (g, s) ->
+  g_start g <= p_time p < g_end g /\ In s (g_shards g) /\ (cache = Some g \/ route hash c p = Some (g, s)).
+Proof. exact route_cached_covering_proof. Qed.
+Print Assumptions route_cached_covering.
+
 (* The group created for a timestamp: [trunc(t,d), +d) with Go's year-1 anchored Truncate; it contains t, its start is
    a multiple of d counted from year 1, and every instant of the span is mapped to the same span (created groups of one
    duration tile the time line: two of them are equal or disjoint). *)
